@@ -576,6 +576,8 @@ pub fn run(run: &mut Run) {
         }
     }
     run.extra.insert("exhaustive_words".into(), json!(words.len()));
+    // more than 65536 layers: records on a few layers below and above the 16-bit boundary
+    run.direct(|| json!({"wide_layers": 65540}), check_guarded(check_wide));
     let (lanes, n) = if run.thorough() { (16, 20000) } else { (16, 1500) };
     run_tapes(run, lanes, n, 300, &check_random);
     let n2 = if run.thorough() { 20000 } else { 2500 };
@@ -584,7 +586,40 @@ pub fn run(run: &mut Run) {
     crate::fuzzstage::fuzz_tapes(run, 1200, 120);
 }
 
+/// A sprite with 65540 layers and user data on layers on both sides of the 16-bit boundary (and a cel record on a
+/// high layer): every layer reports its own record and no other.
+fn check_wide() -> CheckResult {
+    let n = 65540usize;
+    let mut s = Sprite::empty(1, 1, Fmt::Rgba);
+    let with: [usize; 7] = [0, 4, 65534, 65535, 65536, 65537, 65539];
+    for i in 0..n {
+        let user_data = if with.contains(&i) { Some(UserData { text: Some(format!("record for layer {}", i)), color: if i % 2 == 0 { Some([i as u8, 2, 3, 4]) } else { None } }) } else { None };
+        s.layers.push(Layer { flags: 1, kind: LayerKind::Image, level: 0, blend: 0, opacity: 255, name: String::new(), user_data });
+    }
+    s.frames[0].cels.push(Cel { layer: 65535, x: 0, y: 0, opacity: 255, content: CelContent::Image { w: 1, h: 1, pixels: vec![1, 2, 3, 255] }, user_data: Some(UserData { text: Some("cel record".into()), color: None }) });
+    let enc = encode(&s, &Plan::plain());
+    let f = AsepriteFile::read(&enc.bytes[..]).map_err(|e| Failure::new("load-error", format!("sprite with 65540 layers failed to load: {}", e)))?;
+    let m = |u: &Option<UserData>| -> Ud { u.as_ref().map(|u| (u.text.clone(), u.color)) };
+    for (i, l) in s.layers.iter().enumerate() {
+        let got = ud(f.layer(i as u32).user_data());
+        if got != m(&l.user_data) {
+            return Err(Failure::new("layer-user-data", format!("65540-layer sprite: layer {} user data {:?}, expected {:?}", i, got, m(&l.user_data))));
+        }
+    }
+    let got = ud(f.cel(0, 65535).user_data());
+    if got != Some((Some("cel record".to_string()), None)) {
+        return Err(Failure::new("cel-user-data", format!("65540-layer sprite: cel(0,65535) user data {:?}", got)));
+    }
+    if ud(f.sprite_user_data()).is_some() {
+        return Err(Failure::new("sprite-user-data", "65540-layer sprite: the sprite reports a record it does not have"));
+    }
+    Ok(Outcome::new(true, 65540).label("layers>65536"))
+}
+
 pub fn replay(case: &serde_json::Value) -> CheckResult {
+    if case.get("wide_layers").is_some() {
+        return check_guarded(check_wide);
+    }
     if let Some(t) = tape_from_case(case) {
         // a tape is either a random long word or a whole sprite; replay both oracles
         let a = check_guarded(|| check_random(&t));
